@@ -3,6 +3,8 @@
 //   IsoCtrl        the cell's edge midpoints are projected by the chart exactly onto the specified control points (observed through map_point)
 //   IsoTrafoExact  Trafo::Isoparam::Evaluator<..,2>: img_point, jac_mat, hess_ten == specified integers / den  (all dyadic: compared with ==),
 //                  jac_det == det of the specified Jacobian, jac_inv * jac_mat = I, hess_inv = the chain-rule expression of the specified tensors
+//   IsoUncharted   Mapping<Mesh, k>, k = 1, 2, 3, without charts: img_point / jac_mat / hess_ten equal the bilinear map of the corners (1e-12 relative),
+//                  the integral of jac_det equals the area, unmap(map(xi)) = xi
 //   IsoVolume      sum_q w_q jac_det (Gauss-Legendre 4x4, exact for the bicubic determinant) == specified rational volume (1e-12 relative)
 //   IsoInverse     Trafo::InverseMapping::unmap_point_by_newton(map(xi)) == xi (1e-9)
 //   IsoSpaceDeriv  Lagrange-1/2 on the iso trafo: the physical gradients and Hessians returned by the space evaluator equal the chain rule
@@ -95,6 +97,76 @@ bool space_derivs(const Space_& space, const IsoTrafo& trafo, const vj::Value& c
   return ok;
 }
 
+// the iso-parametric map of degree deg_ WITHOUT charts is the bilinear map of the four corners: img_point, jac_mat, hess_ten against the
+// specified bilinear values (tolerance: the control points of degree 3 are thirds), the integral of the determinant against the exact area,
+// and the inverse mapping round trip
+template<int deg_> vj::Value check_uncharted(MeshType& mesh, const vj::Value& c, double& worst)
+{
+  typedef Trafo::Isoparam::Mapping<MeshType, deg_> TrafoT;
+  typedef typename TrafoT::template Evaluator<ShapeType, double>::Type EvalT;
+  const double unit = std::ldexp(1.0, -int(c["cs"].as_int()));
+  const double den = double(c["den"].as_int()) / unit, S = double(c["S"].as_int());
+  const std::string tag = "IsoUncharted(degree " + std::to_string(deg_) + ")";
+  TrafoT trafo(mesh);
+  typename EvalT::template ConfigTraits<TrafoTags::img_point | TrafoTags::jac_mat | TrafoTags::jac_det | TrafoTags::hess_ten>::EvalDataType td;
+  EvalT te(trafo);
+  te.prepare(0);
+  const vj::Value& pts = c["blpts"];
+  const double tol = 1e-12;
+  for(std::size_t p(0); p < pts.size(); ++p)
+  {
+    const auto n = pts[p]["n"].ints();
+    typename EvalT::DomainPointType xi; xi[0] = double(n[0]) / S; xi[1] = double(n[1]) / S;
+    te(td, xi);
+    for(std::size_t k(0); k < 2; ++k)
+    {
+      const double ex = double(pts[p]["x"][k].as_int()) / den, e0 = std::fabs(double(td.img_point[int(k)]) - ex);
+      worst = std::max(worst, e0);
+      if(!(e0 <= tol * (1 + std::fabs(ex)))) { vj::Value r = fail(tag, "img_point differs from the bilinear map", pts[p]["n"]); r["exp"] = ex; r["got"] = double(td.img_point[int(k)]); return r; }
+      for(std::size_t a(0); a < 2; ++a)
+      {
+        const double ej = double(pts[p]["j"][k][a].as_int()) / den, e1 = std::fabs(double(td.jac_mat[int(k)][int(a)]) - ej);
+        worst = std::max(worst, e1);
+        if(!(e1 <= 10 * tol * (1 + std::fabs(ej)))) { vj::Value r = fail(tag, "jac_mat differs from the bilinear map", pts[p]["n"]); r["exp"] = ej; r["got"] = double(td.jac_mat[int(k)][int(a)]); return r; }
+        for(std::size_t b(0); b < 2; ++b)
+        {
+          const double eh = double(pts[p]["h"][k][a][b].as_int()) / den, e2 = std::fabs(double(td.hess_ten[int(k)][int(a)][int(b)]) - eh);
+          worst = std::max(worst, e2);
+          if(!(e2 <= 100 * tol * (1 + std::fabs(eh)))) { vj::Value r = fail(tag, "hess_ten differs from the bilinear map", pts[p]["n"]); r["exp"] = eh; r["got"] = double(td.hess_ten[int(k)][int(a)][int(b)]); return r; }
+        }
+      }
+    }
+  }
+  {
+    Cubature::DynamicFactory fac("gauss-legendre:4");
+    Cubature::Rule<ShapeType, double, double, Tiny::Vector<double, 2>> rule(Cubature::ctor_factory, fac);
+    double vol = 0;
+    for(int q(0); q < rule.get_num_points(); ++q)
+    {
+      typename EvalT::DomainPointType xi; xi[0] = rule.get_coord(q, 0); xi[1] = rule.get_coord(q, 1);
+      te(td, xi);
+      vol += rule.get_weight(q) * double(td.jac_det);
+    }
+    const double exact = double(c["blvolnum"].as_int()) / double(c["volden"].as_int()) * unit * unit;
+    if(!(std::fabs(vol - exact) <= 1e-12 * std::fabs(exact))) { vj::Value r = fail(tag, "integral of the Jacobian determinant differs from the area of the quadrilateral"); r["exp"] = exact; r["got"] = vol; return r; }
+  }
+  te.finish();
+  {
+    Trafo::InverseMapping<TrafoT, double> inv(trafo);
+    EvalT te2(trafo);
+    for(std::size_t p(0); p < pts.size(); p += 3)
+    {
+      const auto n = pts[p]["n"].ints();
+      typename EvalT::DomainPointType xi, xo; xi[0] = double(n[0]) / S; xi[1] = double(n[1]) / S;
+      te2.prepare(0); te2(td, xi); te2.finish();
+      typename Trafo::InverseMapping<TrafoT, double>::ImagePointType ip; ip[0] = td.img_point[0]; ip[1] = td.img_point[1];
+      if(!inv.unmap_point_by_newton(xo, ip, 0)) return fail(tag, "inverse mapping: Newton iteration did not converge", pts[p]["n"]);
+      if(!(std::max(std::fabs(xo[0] - xi[0]), std::fabs(xo[1] - xi[1])) <= 1e-9)) return fail(tag, "unmap(map(xi)) differs from xi", pts[p]["n"]);
+    }
+  }
+  return vh::ok();
+}
+
 vj::Value run_case(const vj::Value& c)
 {
   // ---- the cell, the curved edges, the chart ----
@@ -120,6 +192,11 @@ vj::Value run_case(const vj::Value& c)
   for(std::size_t i(0); i < pe.size(); ++i) part.get_target_set<1>()[Index(i)] = pe[i];
   const double unit = std::ldexp(1.0, -int(c["cs"].as_int()));   // physical length of one integer unit
   Geometry::Atlas::Circle<MeshType> chart(0.0, 0.0, double(c["radius"].as_int()) * unit);
+  // ---- degrees 1, 2, 3 without charts: the bilinear map ----
+  double worst_bl = 0;
+  { vj::Value r = check_uncharted<1>(*mesh, c, worst_bl); if(r["ok"].as_bool() != true) return r; }
+  { vj::Value r = check_uncharted<2>(*mesh, c, worst_bl); if(r["ok"].as_bool() != true) return r; }
+  { vj::Value r = check_uncharted<3>(*mesh, c, worst_bl); if(r["ok"].as_bool() != true) return r; }
   IsoTrafo trafo(*mesh);
   if(!pe.empty()) trafo.add_meshpart_chart(part, chart);
 
@@ -228,7 +305,7 @@ vj::Value run_case(const vj::Value& c)
     if(!space_derivs(s2, trafo, c, why, worst_space)) return fail("IsoSpaceDeriv", "Lagrange-2: " + why);
   }
   vj::Value r = vh::ok();
-  r["ncmp"] = ncmp; r["vol"] = vol; r["worst_inv"] = worst_inv; r["worst_unmap"] = worst_unmap; r["worst_space"] = worst_space; r["ncurved"] = (long long)curved.size();
+  r["ncmp"] = ncmp; r["vol"] = vol; r["worst_inv"] = worst_inv; r["worst_unmap"] = worst_unmap; r["worst_space"] = worst_space; r["worst_uncharted"] = worst_bl; r["ncurved"] = (long long)curved.size();
   return r;
 }
 
